@@ -695,6 +695,7 @@ func checkC09Payload(c *Ctx) {
 	c09FrameAtomic(c, "R-frame-atomic")
 	timerCallbacksDoNotWrite(c, "R-timer-writes")
 	c09PublishAfterHeader(c, "R-publish-after-header")
+	c09HandlerResultReturned(c, "R-handler-result-returned")
 	// (a) fmt.Fprintf(w, "...data: %s...", payload): payload must come from json.Marshal
 	// (b) functions that write a payload followed by "\n" to an io.Writer param (stdio line writer): payload from json.Marshal
 	for _, fn := range c.P.LibFns {
